@@ -134,6 +134,10 @@ class Harness:
         r2 = lib(lambda: HashTable(karr, v, mod=mod) if mod is not None else HashTable(karr, v))
         if r2.ok:
             self.twin, self.mtwin = r2.value, dict(self.m)
+        # the key and value arrays stay the caller's: both tables must keep their content when the caller reuses the arrays
+        karr[...] = 0 if karr.any() else 1
+        if isinstance(v, np.ndarray) and v.size:
+            v[...] = 0 if v.any() else 1
         buckets = [k % self.mod_eff for k in keys]
         self.nontrivial_shape = len(set(buckets)) < n or min(keys) < 0 or self.mod_eff == 1
         self.labels += ["dt:" + dt, "mod:" + ("default" if mod is None else "1" if mod == 1 else "explicit"), "values:" + vkind,
@@ -168,6 +172,8 @@ class Harness:
         g = np.asarray(got.value)
         if g.shape != (len(ks),) or not all(same_scalar(x.item(), model[k]) for x, k in zip(g, ks)):
             raise Violation("getv:values", keys=ks, expected=[model[k] for k in ks], got=jsonable(g))
+        if isinstance(got.value, np.ndarray) and got.value.size and got.value.flags.writeable:
+            got.value[...] = 0 if got.value.astype(bool).any() else 1      # a looked-up vector is the caller's: the table must not follow it
         self.lookup_after_assign |= self.assigned and len(ks) > 0
 
     def op_set1(self, which, i, v, as_np):
